@@ -1044,4 +1044,35 @@ MUTANTS += [
                     None => Self(addr.into()),
                 }"""),
              (CM+"lib.rs", "use std::net::{Ipv4Addr, SocketAddr, SocketAddrV4, SocketAddrV6};", "use std::net::{SocketAddr, SocketAddrV4, SocketAddrV6};")]),
+ dict(id="C18-udp-validation-sum-can-wrap", props=["C18"], expect={"C18": r"validate#udp#(mio|uring)#max_response_peers#cannot_wrap"},
+      edits=[(US+"workers/socket/mod.rs", """        .saturating_mul(size_of::<ResponsePeer<Ipv6AddrBytes>>())
+        .saturating_add(size_of::<i32>() + size_of::<AnnounceResponseFixedData>());""", """        .saturating_mul(size_of::<ResponsePeer<Ipv6AddrBytes>>())
+        + size_of::<i32>()
+        + size_of::<AnnounceResponseFixedData>();""")]),
+ dict(id="C18-http-validation-product-can-wrap", props=["C18"], expect={"C18": r"validate#http#max_peers#cannot_wrap"},
+      edits=[(HC+"connection.rs", """        .max_peers
+        .saturating_mul(MAX_PEER_LEN)
+        .saturating_add(""", """        .max_peers
+        .wrapping_mul(MAX_PEER_LEN)
+        .saturating_add(""")]),
+ dict(id="C20-old-export-removed-before-rename", props=["C20"], expect={"C20": r"export#final_path_only_renamed_onto"},
+      edits=[(US+"swarm.rs", """                drop(w);
+
+                if let Err(err) = ::std::fs::rename(""", """                drop(w);
+
+                let _ = ::std::fs::remove_file(&config.scrape_exports.path);
+
+                if let Err(err) = ::std::fs::rename(""")]),
+ dict(id="C20-export-copied-instead-of-renamed", props=["C20"], expect={"C20": r"export#(final_path_only_renamed_onto|order|rename_args|who_opens_for_writing)"},
+      edits=[(US+"swarm.rs", """                if let Err(err) = ::std::fs::rename(
+                    config.scrape_exports.tmp_path(),
+                    &config.scrape_exports.path,
+                ) {""", """                if let Err(err) = ::std::fs::copy(
+                    config.scrape_exports.tmp_path(),
+                    &config.scrape_exports.path,
+                )
+                .map(|_| ())
+                {""")]),
+ dict(id="BENIGN-C18-validation-in-division-form", props=["C18", "C19"], benign=True,
+      edits=[(US+"workers/socket/mod.rs", 'pub fn validate_response_sizes(config: &Config) -> anyhow::Result<()> {\n    use std::mem::size_of;\n\n    use aquatic_udp_protocol::{\n        AnnounceResponseFixedData, Ipv6AddrBytes, ResponsePeer, TorrentScrapeStatistics,\n        TransactionId,\n    };\n\n    // Action (i32) followed by response data\n    let max_announce_response_len = config\n        .protocol\n        .max_response_peers\n        .saturating_mul(size_of::<ResponsePeer<Ipv6AddrBytes>>())\n        .saturating_add(size_of::<i32>() + size_of::<AnnounceResponseFixedData>());\n    let max_scrape_response_len = size_of::<i32>()\n        + size_of::<TransactionId>()\n        + (config.protocol.max_scrape_torrents as usize) * size_of::<TorrentScrapeStatistics>();\n\n    #[cfg(all(target_os = "linux", feature = "io-uring"))]\n    if config.network.use_io_uring {\n        if max_announce_response_len > self::uring::RESPONSE_BUF_LEN {\n            return Err(anyhow::anyhow!(\n                "protocol.max_response_peers is too large for io_uring response buffers"\n            ));\n        }\n        if max_scrape_response_len > self::uring::RESPONSE_BUF_LEN {\n            return Err(anyhow::anyhow!(\n                "protocol.max_scrape_torrents is too large for io_uring response buffers"\n            ));\n        }\n\n        return Ok(());\n    }\n\n    if max_announce_response_len > crate::common::BUFFER_SIZE {\n        return Err(anyhow::anyhow!(\n            "protocol.max_response_peers is too large for response buffer"\n        ));\n    }\n    if max_scrape_response_len > crate::common::BUFFER_SIZE {\n        return Err(anyhow::anyhow!(\n            "protocol.max_scrape_torrents is too large for response buffer"\n        ));\n    }\n\n    Ok(())\n}\n', 'pub fn validate_response_sizes(config: &Config) -> anyhow::Result<()> {\n    use std::mem::size_of;\n\n    use aquatic_udp_protocol::{\n        AnnounceResponseFixedData, Ipv6AddrBytes, ResponsePeer, TorrentScrapeStatistics,\n        TransactionId,\n    };\n\n    // Action (i32) followed by fixed response data\n    const ANNOUNCE_RESPONSE_BASE_LEN: usize =\n        size_of::<i32>() + size_of::<AnnounceResponseFixedData>();\n    const SCRAPE_RESPONSE_BASE_LEN: usize = size_of::<i32>() + size_of::<TransactionId>();\n    // IPv6 peers take up the most space\n    const MAX_PEER_LEN: usize = size_of::<ResponsePeer<Ipv6AddrBytes>>();\n\n    #[allow(unused_mut)]\n    let (mut buffer_len, mut buffer_name) = (crate::common::BUFFER_SIZE, "response buffer");\n\n    #[cfg(all(target_os = "linux", feature = "io-uring"))]\n    if config.network.use_io_uring {\n        buffer_len = self::uring::RESPONSE_BUF_LEN;\n        buffer_name = "io_uring response buffers";\n    }\n\n    // Calculate limits instead of response lengths so that very large\n    // configured values can\'t cause overflows and so that the limits can be\n    // reported\n    let max_response_peers = (buffer_len - ANNOUNCE_RESPONSE_BASE_LEN) / MAX_PEER_LEN;\n    let max_scrape_torrents =\n        (buffer_len - SCRAPE_RESPONSE_BASE_LEN) / size_of::<TorrentScrapeStatistics>();\n\n    if config.protocol.max_response_peers > max_response_peers {\n        return Err(anyhow::anyhow!(\n            "protocol.max_response_peers is too large for {} (largest possible value: {})",\n            buffer_name,\n            max_response_peers\n        ));\n    }\n    if config.protocol.max_scrape_torrents as usize > max_scrape_torrents {\n        return Err(anyhow::anyhow!(\n            "protocol.max_scrape_torrents is too large for {} (largest possible value: {})",\n            buffer_name,\n            max_scrape_torrents\n        ));\n    }\n\n    Ok(())\n}\n')]),
 ]
